@@ -28,18 +28,20 @@ PKG = {"4P": "[7][901]", "5P": "[2] U [8]"}
 
 
 # ------------------------------------------------------------------ trees (JSON-able specs)
-def ft(d, text, fcs, rc=None, mark="Muss", pkg=None, ident=None):
+def ft(d, text, fcs, rc=None, mark="Muss", pkg=None, ident=None, joint="then"):
     """ident: the harness's own name of the element (default: the discriminator). Discriminators are neither unique nor mandatory in an AHB
     (repeated name lines of a NAD segment; None for elements not found in the MIG), so results are matched to elements by position."""
     if pkg:
         x = f"{mark} [{pkg}]"
+    elif rc and joint == "U":
+        x = f"{mark} [{rc}] U [{fcs[0]}]"   # and-combined: the format constraint counts whatever the requirement constraint says
     elif rc:
         x = f"{mark} [{rc}]" + "".join(f"[{k}]" for k in fcs[:1])
     elif fcs:
         x = f"{mark} " + " U ".join(f"[{k}]" for k in fcs)
     else:
         x = mark
-    return {"t": "ft", "d": d, "id": ident or d, "x": x, "in": text, "fc": list(fcs), "rc": rc, "pkg": pkg}
+    return {"t": "ft", "d": d, "id": ident or d, "x": x, "in": text, "fc": list(fcs), "rc": rc, "pkg": pkg, "joint": joint}
 
 
 def vp(d, text, pool):
@@ -150,9 +152,16 @@ class TreeScenario:
             return ["901"] if self.rc.get("7") == "FULFILLED" else []
         if e["pkg"]:
             return []
+        if e["rc"] and e.get("joint") == "U":
+            return e["fc"][:1]
         if e["rc"] and self.rc.get(e["rc"]) != "FULFILLED":
             return []
         return e["fc"][:1] if e["rc"] else e["fc"]
+
+    def expected_format(self, e):
+        """the format verdict the statement demands for a free-text element: every format constraint that takes part (fc_keys; they are and-combined)
+        judged against the element's OWN entered input by the harness's evaluators (fulfilled iff the input is the text the evaluator expects)"""
+        return all(self.expected.get(k) == e["in"] for k in self.fc_keys(e))
 
     def yields_of(self, vec):
         y = {}
@@ -296,6 +305,9 @@ def scenarios(ctx):
                                                               ft("D2", "beta", ["901"]), vp("V2", "A", [("A", "X")])]), rc, {"901": "beta"}))
     S.append(TreeScenario("seg-rc", seg("S", "Muss [1] U [2]", [ft("D1", "alpha", ["901"], rc="1"), ft("D2", "beta", ["902"], rc="3", mark="Soll"), ft("D3", "gamma", ["902"], rc="2", mark="Kann")]),
                           rc, {"901": "alpha", "902": "gamma"}))
+    S.append(TreeScenario("seg-rc-and-fc", seg("S", "Muss", [ft("D1", "alpha", ["901"], rc="3", joint="U"), ft("D2", "beta", ["902"], rc="1", joint="U"),
+                                                              ft("D3", "gamma", ["901"], rc="3", mark="Soll", joint="U"), ft("D4", "", ["902"], rc="8", mark="X", joint="U")]), rc,
+                          {"901": "zz", "902": "beta"}))
     S.append(TreeScenario("seg-none", seg("S", "Muss", [ft("D1", None, ["904"]), ft("D2", "beta", ["904"]), ft("D3", "", ["901"])]), rc, {"904": None, "901": ""}))
     # optional segments, elements left empty next to elements whose own input violates their format constraint
     S.append(TreeScenario("seg-optional-last-empty", seg("S", "Kann", [ft("D1", "alpha", ["901"]), ft("D2", "beta", ["902"]), ft("D3", None, ["903"])]), rc,
@@ -378,11 +390,18 @@ def run(ctx):
                     paired = {}
                     ctx.fail(f"{sc.name}|document-order", inp, "one row per visited node, in document order", f"{ooo}: {[r.discriminator for r in results]}",
                              "oracle: the report cannot be matched to the tree position by position")
+                for e_ in sc.fts:
+                    r_ = paired.get(ident(e_))
+                    if r_ is not None and hasattr(r_, "format_validation_fulfilled") and r_.format_validation_fulfilled != sc.expected_format(e_):
+                        ctx.fail(f"{sc.name}|format-verdict|{ident(e_)}", dict(inp, element=ident(e_)),
+                                 f"format_validation_fulfilled = {sc.expected_format(e_)} (constraints {sc.fc_keys(e_)} against the element's own input {e_['in']!r})",
+                                 f"{r_.format_validation_fulfilled} ({r_.format_error_message!r})",
+                                 "oracle: the element's format constraints are evaluated against its own entered input")
                 for el_id, res_el in paired.items():
                     if alone is not None and el_id in alone and repr(res_el) != alone[el_id]:
                         ctx.fail(f"{sc.name}|own-input|{el_id}", dict(inp, element=el_id), alone[el_id], repr(res_el),
                                  "oracle: the element's result differs from validating the element on its own with its own input")
-            leaks = [e for e in log if e[0] == "fc" and e[2] != e[3]]
+            leaks = [e for e in log if (e[0] == "fc" and e[2] != e[3]) or e[0] == "other-version"]
             if leaks:
                 ctx.fail(f"{sc.name}|leak", inp, "every FC evaluator finds, after yielding, the text it was called with", repr(leaks[:4]), "oracle: ContextVar changed under a running evaluator")
             if any(vec):
